@@ -8,7 +8,8 @@ import coqemit as E
 
 ID = "C16"
 PROPS = "Props/C16.v"
-IMPORTS = "From Coq Require Import String PrimFloat.\nFrom PV Require Import Lib.Common Lib.C16_Spec Model.C16_Store Model.C16_Heap Model.C16_Codec Gen.C16_Fields."
+IMPORTS = ("From Coq Require Import String PrimFloat.\nFrom PV Require Import Lib.Common Lib.C16_Spec Model.C16_Store Model.C16_Heap Model.C16_Codec "
+           "Gen.C16_Fields Gen.C16_Kernel Model.C16_Kernel Model.C16_Maps.")
 SHARD = 40
 SERIAL = False
 LEVEL_TEXT = ("Coq theorems over executable models of (1) the HDF5 store with h5py_File_write_dict, the typed readers and the table-driven "
@@ -21,29 +22,50 @@ LEVEL_TEXT = ("Coq theorems over executable models of (1) the HDF5 store with h5
               "the source's values, a deep copy lives in freshly allocated cells closed under reachability and no mutation of them is visible "
               "through the source; (3) VCF import (positionally exact; with grouping a stable sort + run-length metadata) and the data-frame "
               "codecs (Morgan genetic maps lossless; refutations for cM rounding, breeding-value location/scale, sorted variance-matrix labels, "
-              "absent labels). Field lists, readers and copy modes are extracted from the source by an ast translator on every run and checked "
-              "(written = read, metadata persisted, copies cover constructor and metadata). The models are tied to the code by evaluating them "
-              "inside Coq against real HDF5 files, CSV files, data frames, VCF text parsed by cyvcf2, and copy/mutation experiments.")
+              "absent labels, default arguments on the two sides of the genetic-map codecs, marker names through the egmap file pair, the "
+              "interpolation kind given to the ExtendedGeneticMap constructor); every attribute a copy (shallow or deep) duplicates is a cell "
+              "allocated by that copy. Field lists, readers and copy modes (Gen/C16_Fields.v) and the kernel expressions on which the "
+              "theorems turn (Gen/C16_Kernel.v: field name, the three delete conditions and the recursive call of h5py_File_write_dict, the "
+              "decode condition of h5py_File_read_dict, the group-name normalisation of all 18 to_hdf5/from_hdf5 bodies, the unit conversions, "
+              "default units, constructor spline arguments, egmap column names and by-name/by-position column selections of the table readers, "
+              "the long-table layout of the variance-matrix codec) are extracted from the source by ast translators on every run; the "
+              "round-trip theorems are restated about the code written with the generated definitions, proved equal to the hand model by "
+              "conversion, so a changed expression leaves the obligations undischarged whatever the sampled cases exercise. The models are "
+              "tied to the code by evaluating them inside Coq against real HDF5 files, CSV / egmap files, data frames, VCF text parsed by "
+              "cyvcf2, the typed readers called directly, and copy/mutation experiments.")
 LEVEL_NOTE = ("trusted: Coq kernel + vm_compute, PrimFloat primitives (data-frame codecs), h5py/HDF5 (modelled as a path->node map with "
               "create/delete/membership), pandas (frames are compared cell by cell; CSV text is not modelled: the frame pandas parses back is an "
               "input of the model), cyvcf2 (VCF text -> records), numpy copy semantics (ndarray.__copy__/__deepcopy__ duplicate the buffer). "
               "Theorems are about the Gallina models; the tie to the code is differential on generated inputs plus the regenerated field tables. "
               "Not proved: general (all-size) round trips of the wide/long data-frame "
-              "codecs other than Morgan genetic maps, class-level (all attributes at once) copy equality.")
-TECHNIQUE = "Coq proof over executable store/codec/heap models; in-Coq vm_compute correspondence with the implementation; ast-generated field tables"
+              "codecs other than Morgan genetic maps and name-free egmap files, class-level (all attributes at once) copy equality. "
+              "DenseSquareTaxaTraitMatrix's own data-frame codec is checked by the predicate only (no Coq model); the CSV writers are "
+              "observed through the frame pandas parses back.")
+TECHNIQUE = "Coq proof over executable store/codec/heap models; in-Coq vm_compute correspondence with the implementation; ast-generated field tables and kernel expressions"
 RULE = ("case kinds from one PRNG: h5 (class, group name incl. nested/non-ASCII/absolute, 1-3 objects written to the same location with "
-        "overwrite flags, rich->poor sequences, optional fields all/none/mixed, grouped or arbitrary metadata, file name or open handle), wd "
-        "(h5py_File_write_dict called directly with nested dictionaries, None items, str/bytes members, a dictionary replacing data and the reverse), copy (14 classes x copy/deepcopy/method forms, then "
-        "every reachable array/dict of the copy is mutated), vcf (1-4 samples, 1-6 phased diploid records, unsorted, '.' identifiers, non-ASCII "
-        "names, phased and unphased class, with and without grouping, a share with tied coordinates), df (7 classes via pandas or CSV with "
-        "matching options, dyadic and awkward floats, sorted/unsorted and absent labels, cM/M units); non-trivial = an object with both present "
-        "and absent optional fields or a sequence of >= 2 writes / any copy, vcf, df, wd case; distinct by SHA-256 of the case")
+        "overwrite flags, rich->poor sequences, optional fields all/none/mixed, grouped or arbitrary metadata, file name or open handle; the "
+        "object written comes from the constructor, from copy.copy / copy.deepcopy, or is the object of the previous step updated in place "
+        "through its setters; layouts with more than 127 / 255 taxa or variants; int64 positions beyond 2^53), rd (every typed reader and "
+        "h5py_File_read_dict / has_group called directly on files written with h5py itself: all dtypes, values that wrap in int8, scalar and "
+        "array strings, invalid UTF-8), wd "
+        "(h5py_File_write_dict called directly with nested dictionaries, None items, str/bytes members, a dictionary replacing data and the reverse), copy (14 classes x "
+        "each of copy/deepcopy/.copy()/.deepcopy() in turn, source possibly itself a copy, hyper-parameter dictionaries with ndarray / list / "
+        "dictionary members, non-default interpolation kinds; then every mutable value reachable from the copy is mutated in place: arrays, "
+        "dictionary members, lists, members of member dictionaries), vcf (1-4 samples, 1-6 phased diploid records, unsorted, '.' identifiers, non-ASCII "
+        "names, phased and unphased class, with and without grouping, a share with tied coordinates), df (8 classes via pandas or CSV with "
+        "matching options, columns addressed by name or by position, dyadic and awkward floats, sorted/unsorted and absent labels, cM/M units, "
+        "default arguments on both sides, interpolation kind handed to the reader, ExtendedGeneticMap through to_egmap/from_egmap and through "
+        "hand-written egmap files with the documented header); non-trivial = an object with both present "
+        "and absent optional fields or a sequence of >= 2 writes / any copy, vcf, df, wd, rd case; distinct by SHA-256 of the case")
 TRUSTED = ["h5py/HDF5 semantics: membership test, delete of a group removes its subtree, create_dataset creates missing groups and refuses existing names",
            "pandas: DataFrame construction, get_loc, to_numpy; read_csv/to_csv treated as a black box whose parsed frame is observed",
            "cyvcf2 0.34: VCF text -> (CHROM, POS, ID, genotypes)", "numpy: ndarray.__copy__/__deepcopy__ copy the buffer; lexsort/argsort(mergesort) are stable",
-           "group metadata attribute names (taxa_grp_*, vrnt_chrgrp_*) are listed in the harness, not derived from the source"]
+           "group metadata attribute names (taxa_grp_*, vrnt_chrgrp_*) are listed in the harness, not derived from the source",
+           "harness/translate/c16_kernel.py (ast -> Gen/C16_Kernel.v, fail closed on any statement shape it does not recognise) and the entry-point audit "
+           "(every class / persistence method / helper of the anchored modules is classified as covered or skipped, at run time)",
+           "scipy.interpolate.interp1d (only its y values, kind and fill value are observed)"]
 ASSUMPTIONS = ["labels are str objects of unicode scalar values (no lone surrogates); label arrays are 1-D object arrays as the setters require",
-               "hyper-parameter dictionaries are one level deep", "VCF records carry diploid GT calls with integer CHROM",
+               "hyper-parameter dictionaries are one level deep for HDF5 (members: arrays, python numbers, str, bytes, None); for copies they may hold lists and one further dictionary (checked by the predicate)", "VCF records carry diploid GT calls with integer CHROM",
                "data-frame cases avoid NaN/inf and duplicated labels; CSV cases avoid labels that pandas would re-type (numeric, empty, NA-like)"]
 
 import boot
@@ -58,6 +80,7 @@ BUILD = os.path.join(boot.VERIF, "build", "C16")
 #   {"t": "obj", "d": [repr,...]}                                             1-D object array of something else
 #   {"t": "int", "v": n}  {"t": "float", "v": hex}  {"t": "s", "v": str}  {"t": "by", "v": [bytes]}    python scalars
 #   {"t": "dict", "v": {key: value}}
+#   {"t": "list", "d": [hex floats]}                                          python list of floats (a mutable hyper-parameter value)
 NUMT = {"i8": "int8", "i32": "int32", "i64": "int64", "b": "bool", "f64": "float64"}
 TNUM = {v: k for k, v in NUMT.items()}
 
@@ -79,6 +102,7 @@ def mk(v):
     if t == "s": return v["v"]
     if t == "by": return bytes(v["v"])
     if t == "dict": return {k: mk(x) for k, x in v["v"].items()}
+    if t == "list": return [float.fromhex(x) for x in v["d"]]
     raise ValueError(t)
 
 def ob(x):
@@ -108,6 +132,7 @@ def ob(x):
     if isinstance(x, str): return {"t": "s", "v": x}
     if isinstance(x, bytes): return {"t": "by", "v": list(x)}
     if isinstance(x, dict): return {"t": "dict", "v": {str(k): ob(v) for k, v in x.items()}}
+    if isinstance(x, list) and all(isinstance(y, float) for y in x): return {"t": "list", "d": [fhex(y) for y in x]}
     return {"t": "other", "v": type(x).__name__, "d": repr(x)[:200]}
 
 def veq(a, b):
@@ -186,7 +211,10 @@ def build(key, spec):
         for f in ("var_env", "var_rep", "var_err"): kw.setdefault(f, None)
     if key in ("SGMAP", "EGMAP"):
         kw["auto_group"] = bool(spec.get("_auto_group", True)); kw["auto_build_spline"] = bool(spec.get("_spline", True))
+        if spec.get("_kind"): kw["spline_kind"] = spec["_kind"]
     o = cls(**kw)
+    if key in ("SGMAP", "EGMAP") and spec.get("_kind") and spec.get("_kind_build") and spec.get("_spline", True):
+        o.build_spline(spec["_kind"], "extrapolate")          # the library's own route to a non-default interpolation kind
     for f in CLS[key][3]:
         if f in spec: setattr(o, f, mk(spec[f]))
     for ax in spec.get("_group", []):
@@ -196,6 +224,20 @@ def build(key, spec):
 
 def observe(key, o):
     return {f: ob(getattr(o, f)) for f in attrs(key)}
+
+def _reuse(key, o, spec):
+    """lifecycle: the SAME object again, brought to the state `spec` through its property setters (None when a setter refuses,
+    e.g. a read-only attribute or a length check against the current matrix: the caller then builds a fresh object)"""
+    try:
+        for f in CLS[key][2]:
+            if f in spec and f != "ploidy": setattr(o, f, mk(spec.get(f)))
+        for f in CLS[key][3]: setattr(o, f, mk(spec[f]) if f in spec else None)
+        for ax in spec.get("_group", []):
+            if ax == "taxa": o.group_taxa() if hasattr(o, "group_taxa") else o.group()
+            elif ax == "vrnt": o.group_vrnt()
+        return o
+    except Exception:
+        return None
 
 # ------------------------------------------------------------------------------------------------ HDF5
 def h5dump(fn):
@@ -230,10 +272,23 @@ def run_h5(case):
     fn = _tmp(case, ".h5")
     if os.path.exists(fn): os.remove(fn)
     grp = case["group"]
-    out = {"orig": [], "writes": [], "reads": [], "dumps": []}
+    out = {"orig": [], "writes": [], "reads": [], "dumps": [], "routes": []}
+    routes = case.get("routes") or ["new"] * len(case["objs"])
+    prev = None
     try:
-        for spec, ow in zip(case["objs"], case["overwrite"]):
-            o = build(key, spec)
+        for spec, ow, route in zip(case["objs"], case["overwrite"], routes):
+            # where the object written comes from: the constructor, copy.copy / copy.deepcopy of a constructed object, or the object
+            # of the previous step updated in place through its setters ("a result depends on the state at the call")
+            o, used = None, "new"
+            if route == "setattr" and prev is not None and key != "GE":
+                o = _reuse(key, prev, spec)
+                if o is not None: used = "setattr"
+            if o is None:
+                o = build(key, spec)
+                if route == "copy": o = _copy.copy(o); used = "copy"
+                elif route == "deepcopy": o = _copy.deepcopy(o); used = "deepcopy"
+            prev = o
+            out["routes"].append(used)
             out["orig"].append(observe(key, o))
             try:
                 if case.get("handle"):
@@ -281,6 +336,7 @@ def e_sval(v):
     if t == "float": return "(VFloat %s)" % Z(fbits(float.fromhex(v["v"])))
     if t == "s": return "(VStr %s)" % zstr(v["v"])
     if t == "by": return "(VBytes %s)" % zbytes(v["v"])
+    if t == "list": return "(VArr TF64 %s %s)" % (zl([len(v["d"])]), zl([fbits(float.fromhex(x)) for x in v["d"]]))     # copy cases only
     raise ValueError("value of kind %r has no model counterpart" % t)
 def e_oval(v):
     if v["t"] == "dict":
@@ -323,14 +379,21 @@ class _Heap:
             items = []
             for k, x in sorted(v["v"].items()):
                 if opaque and x is not None: items.append("(%s, %s)" % (zstr(k), self.add("(COpaque 1 %s)" % zl(_data(x)))))
+                elif x is not None and x["t"] == "list":      # a python list: one mutable cell that both copy.copy and copy.deepcopy duplicate
+                    items.append("(%s, %s)" % (zstr(k), self.add("(COpaque 3 %s)" % zl([fbits(float.fromhex(y)) for y in x["d"]]))))
                 else: items.append("(%s, %s)" % (zstr(k), self.hv(x)))
             return self.add("(CDict %s)" % E.lst(items, str))
         if t in ("int", "float", "s", "by") or (t in DT and v.get("sc")): return "(HImm %s)" % e_sval(v)
         return self.add("(CArr %s)" % e_sval(v))
     def render(self): return E.lst(self.cells, str)
 
+def _nested_dict(v):
+    return v is not None and v.get("t") == "dict" and any(x is not None and x.get("t") == "dict" for x in v["v"].values())
+
 def emit_copy(case, out):
     key = case["cls"]; H = _Heap()
+    # the heap model observes containers one level deep: a dictionary inside a hyper-parameter dictionary is checked by the predicate only
+    if any(_nested_dict(v) for v in out["before"].values()): return None
     names = attrs(key)
     fields = []
     for a in names:
@@ -350,7 +413,7 @@ def emit_copy(case, out):
         return (a, "", k) if a == "gpmod" else (a, k, "")
     def e_path(n):
         a, k, kf = path(n); return "(%s, %s, %s)" % (E.s(a), zstr(k), E.s(kf))
-    shares = E.lst([n for n, v in out["shares"].items() if v is not None],
+    shares = E.lst([n for n, v in out["shares"].items() if v is not None and n.count(".") <= 1],
                    lambda n: "(%s, %s, %s, %s)" % (E.s(path(n)[0]), zstr(path(n)[1]), E.s(path(n)[2]), E.b(out["shares"][n])))
     changed = E.lst([n for n in out["before"] if not veq(out["before"][n], out["after"].get(n))], E.s)
     watch = E.lst([n for n in out["before"] if n not in derived], lambda n: "(%s, %s)" % (E.s(n), e_path(n)))
@@ -419,15 +482,26 @@ def emit_df(case, out):
             return "(mkG %s %s %s %s %s %s)" % (zl(v["vrnt_chrgrp"]["d"]), zl(v["vrnt_phypos"]["d"]), e_ozl(v.get("vrnt_stop")) if ext else "None",
                                                 E.lst(v["vrnt_genpos"]["d"], e_f), e_ostrs(v.get("vrnt_name")) if ext else "None", e_ostrs(v.get("vrnt_fncode")) if ext else "None")
         u = "UcM" if case["opts"].get("units", "cM") in ("cM", "centiMorgans") else "UM"
-        if "exc" in b: back = "None"
+        if "exc" in b: back = "None"; kind_ok = "true"
         else:
             meta = "None"
             if all(b[k] is not None for k in VRNT_META): meta = "(Some (%s, %s, %s, %s))" % tuple(zl(b[k]["d"]) for k in VRNT_META)
             sp = "None" if b.get("spline") is None else "(Some %s)" % E.lst(sorted(b["spline"]["v"].items(), key=lambda kv: int(kv[0])),
                                                                              lambda kv: "(%s, %s)" % (Z(int(kv[0])), E.lst(kv[1]["d"], e_f)))
             back = "(Some (%s, %s, %s))" % (e_g(b), meta, sp)
-        return "agree_gmap %s %s %s %s %s %s %s %s" % (E.b(ext), u, E.b(case["obj"].get("_auto_group", True)), E.b(case["obj"].get("_spline", True)),
-                                                      e_g(o), e_tbl(df), e_tbl(dfr), back)
+            # interpolation settings: what the reader's constructor was given (the source's, or nothing with default arguments) vs what it kept
+            given = ({"t": "s", "v": "linear"}, {"t": "s", "v": "extrapolate"}) if case["opts"].get("defaults") else (o["spline_kind"], o["spline_fill_value"])
+            if all(v is not None and v["t"] == "s" for v in given + (b["spline_kind"], b["spline_fill_value"])):
+                kind_ok = "agree_kind %s %s %s %s %s %s" % (E.b(ext), zstr(given[0]["v"]), zstr(given[1]["v"]),
+                                                            E.b(True if case["opts"].get("defaults") else case["obj"].get("_spline", True)),
+                                                            zstr(b["spline_kind"]["v"]), zstr(b["spline_fill_value"]["v"]))
+            else: kind_ok = "false"
+        ag, spl = E.b(case["obj"].get("_auto_group", True)), E.b(case["obj"].get("_spline", True))
+        if case["opts"].get("defaults"):
+            return "andb (agree_gmap_default %s %s %s %s %s) (%s)" % (E.b(ext), e_g(o), e_tbl(df), e_tbl(dfr), back, kind_ok)
+        if case["via"] in ("egmap", "egmap_file"):
+            return "andb (agree_egmap %s %s %s %s %s) (%s)" % (ag, spl, E.b(case["via"] == "egmap"), e_tbl(dfr), back, kind_ok)
+        return "andb (agree_gmap %s %s %s %s %s %s %s %s) (%s)" % (E.b(ext), u, ag, spl, e_g(o), e_tbl(df), e_tbl(dfr), back, kind_ok)
     if key == "CM":
         def e_m(v): return "(mkCM %s %s %s)" % (E.lst2(rows2(v["mat"]), e_f), e_ostrs(v["taxa"]), e_ozl(v["taxa_grp"]))
         if "exc" not in b and b["taxa"] is not None and b["taxa"]["t"] != "str": return None      # integer labels parsed from a CSV: predicate only
@@ -463,14 +537,87 @@ def emit_case(case, out):
     f = _EMIT.get(case["kind"])
     return f(case, out) if f else None
 
+# ------------------------------------------------------------------------------------------------ entry-point audit (run time, fail closed)
+# Every class defined in an anchored module and every persistence / copy method visible on it (own or inherited) must be driven by
+# a case kind or be listed in SKIPPED with a reason; a class, method or helper function that appears in the source and is not
+# classified here makes translate() raise, i.e. the check fails until it is classified.
+import re as _re
+_IO_RE = _re.compile(r"^(to_|from_|copy$|deepcopy$|__copy__$|__deepcopy__$)")
+_COPY4 = ["__copy__", "__deepcopy__", "copy", "deepcopy"]
+_PD = ["to_pandas", "from_pandas", "to_csv", "from_csv"]; _PDD = ["to_pandas_dict", "from_pandas_dict", "to_csv_dict", "from_csv_dict"]; _H5 = ["to_hdf5", "from_hdf5"]
+COVERED = {        # python class -> {method: case kind that calls it}
+    "DenseMatrix": {**{m: "copy" for m in _COPY4}, **{m: "h5" for m in _H5}},
+    "DenseTaxaMatrix": {**{m: "copy" for m in _COPY4}, **{m: "h5" for m in _H5}},
+    "DenseVariantMatrix": {**{m: "copy" for m in _COPY4}, **{m: "h5" for m in _H5}},
+    "DenseGenotypeMatrix": {**{m: "copy" for m in _COPY4}, **{m: "h5" for m in _H5}, "from_vcf": "vcf"},
+    "DensePhasedGenotypeMatrix": {**{m: "copy" for m in _COPY4}, **{m: "h5" for m in _H5}, "from_vcf": "vcf"},
+    "DenseBreedingValueMatrix": {**{m: "copy" for m in _COPY4}, **{m: "h5" for m in _H5}, **{m: "df" for m in _PD}},
+    "DenseCoancestryMatrix": {**{m: "copy (DenseMolecularCoancestryMatrix)" for m in _COPY4}, **{m: "h5 (DenseMolecularCoancestryMatrix)" for m in _H5}, **{m: "df (DenseMolecularCoancestryMatrix)" for m in _PD}},
+    "StandardGeneticMap": {**{m: "copy" for m in _COPY4}, **{m: "df" for m in _PD}},
+    "ExtendedGeneticMap": {**{m: "copy" for m in _COPY4}, **{m: "df" for m in _PD}, "to_egmap": "df via egmap", "from_egmap": "df via egmap / egmap_file"},
+    "DenseAdditiveLinearGenomicModel": {**{m: "copy" for m in _COPY4}, **{m: "h5" for m in _H5}, **{m: "df" for m in _PDD}},
+    "DenseAdditiveDominanceLinearGenomicModel": {**{m: "copy" for m in _COPY4}, **{m: "h5" for m in _H5}, **{m: "df" for m in _PDD}},
+    "DenseTwoWayDHAdditiveGeneticVarianceMatrix": {**{m: "copy" for m in _COPY4}, **{m: "h5" for m in _H5}, **{m: "df" for m in _PD}},
+    "DenseSquareTaxaTraitMatrix": {**{m: "copy" for m in _COPY4}, **{m: "h5" for m in _H5}, **{m: "df (predicate only)" for m in _PD}},
+    "G_E_Phenotyping": {**{m: "copy" for m in _COPY4}, **{m: "h5" for m in _H5}},
+    "Copyable": {m: "abstract interface; every implementation above is driven by the copy cases" for m in _COPY4},
+}
+SKIPPED = {
+    ("DenseBreedingValueMatrix", "from_numpy"): "constructor-like factory that standardises raw values: not a persistence route (property C15)",
+    ("DenseCoancestryMatrix", "from_gmat"): "abstract factory computing a coancestry matrix from genotypes (property C13)",
+    ("DenseTwoWayDHAdditiveGeneticVarianceMatrix", "from_gmod"): "computes variances from a genomic model (property C12), not a persistence route",
+    ("DenseTwoWayDHAdditiveGeneticVarianceMatrix", "from_algmod"): "computes variances from a genomic model (property C12), not a persistence route",
+}
+H5_FUNCS = {"h5py_File_write_dict": "wd, h5", "h5py_File_read_dict": "rd, h5 (genomic models)", "h5py_File_read_int": "rd, h5", "h5py_File_read_ndarray": "rd, h5",
+            "h5py_File_read_ndarray_int": "rd", "h5py_File_read_ndarray_int8": "rd, h5", "h5py_File_read_ndarray_utf8": "rd, h5", "h5py_File_read_utf8": "rd, h5",
+            "h5py_File_has_group": "rd", "h5py_File_is_readable": "rd", "h5py_File_is_writable": "rd"}
+UNCOVERED_ARGS = {
+    "DenseSquareTaxaTraitMatrix.from_pandas(trait_colnames = <positions>)": "refused with a TypeError by check_Sequence_all_type(trait_colnames, (str, NoneType)) although the annotation admits Integral (taxa / group / value columns by position are covered): an argument check, not a round-trip difference",  # parameters of covered methods that the generators leave at their defaults, with the reason
+    "column-name parameters (taxa_col, vrnt_chrgrp_col, female_col, ...) and sep/header/index of the CSV writers": "renaming columns consistently on both sides does not change which array goes where; the egmap pair (tab separator, other names) is the one non-default combination the library itself uses and it is covered",
+    "DenseCoancestryMatrix.to_pandas(taxa = <subset>)": "exports a sub-matrix by design: not a round trip",
+    "spline / spline_fill_value arrays of the genetic-map readers": "fill_value other than 'extrapolate' changes interpolation outside the map only (property C11)",
+}
+
+def audit_entry_points():
+    import importlib, inspect
+    with open(os.path.join(boot.VERIF, "properties.jsonl")) as f:
+        prop = [json.loads(l) for l in f if l.strip() and json.loads(l).get("id") == ID][0]
+    problems = []; seen = 0
+    for rel in prop["anchors"]["files"]:
+        m = importlib.import_module(rel[:-3].replace("/", "."))
+        for n, c in inspect.getmembers(m, inspect.isclass):
+            if c.__module__ != m.__name__: continue
+            if n not in COVERED: problems.append("class %s (%s) is not classified" % (n, rel)); continue
+            for x in sorted(dir(c)):
+                if _IO_RE.match(x) and callable(getattr(c, x)):
+                    seen += 1
+                    if x not in COVERED[n] and (n, x) not in SKIPPED: problems.append("%s.%s is neither covered nor skipped" % (n, x))
+            for x in COVERED[n]:
+                if not hasattr(c, x): problems.append("%s.%s is listed as covered but no longer exists" % (n, x))
+        for n, g in inspect.getmembers(m, inspect.isfunction):
+            if g.__module__ != m.__name__ or n.startswith("_") or n.startswith("check_"): continue
+            seen += 1
+            if n not in H5_FUNCS: problems.append("function %s (%s) is not classified" % (n, rel))
+    # the harness drives exactly the classes it says it drives
+    for k in CLS:
+        pc = CLS[k][1]
+        if pc not in COVERED and pc != "DenseMolecularCoancestryMatrix": problems.append("harness class %s not in COVERED" % pc)
+    if problems: raise RuntimeError("entry-point audit: " + "; ".join(problems[:8]))
+    return {"audit": "entry points", "classified": seen, "skipped": len(SKIPPED)}
+
 # ------------------------------------------------------------------------------------------------ translator hook
 def translate(repo, gen_dir):
     sys.path.insert(0, os.path.join(os.path.dirname(os.path.dirname(os.path.abspath(__file__))), "translate"))
     import c16_fields
     classes = [(k, klass(k), list(CLS[k][3])) for k in CLS]
     recs, path = c16_fields.generate(classes, gen_dir)
+    # kernel expressions (delete conditions, field/group names, recursive call, decode condition, unit conversions, long-table
+    # layout) regenerated from the source; fail closed
+    from translate import c16_kernel
+    kern = c16_kernel.translate(repo, gen_dir, [(k, klass(k)) for k in H5_CLASSES])
     return [{"table": "Gen/C16_Fields.v", "classes": len(recs),
-             "written_keys": sum(len(r["written"]) for r in recs), "copied_attrs": sum(len(r["cp_ctor"]) + len(r["cp_post"]) for r in recs)}]
+             "written_keys": sum(len(r["written"]) for r in recs), "copied_attrs": sum(len(r["cp_ctor"]) + len(r["cp_post"]) for r in recs)},
+            kern, audit_entry_points()]
 
 # ------------------------------------------------------------------------------------------------ generators
 LABELS = ["a", "B7", "ä", "ß", "日本", "😀x", "na/ïve", "", " sp ace", "Ω", "line-1", "Zz", "é", "x_y", "0", "t1"]
@@ -519,6 +666,8 @@ def g_taxa_part(rng, o, n, mode, meta=True):
 def g_vrnt_part(rng, o, p, mode):
     o["vrnt_chrgrp"] = opt(rng, mode, lambda: g_int(rng, [p], 1, 3))
     o["vrnt_phypos"] = opt(rng, mode, lambda: g_int(rng, [p], 1, 10 ** 9))
+    if o["vrnt_phypos"] is not None and rng.random() < 0.15:
+        o["vrnt_phypos"]["d"][rng.randrange(p)] = rng.choice([2 ** 53 + 1, 2 ** 62 + 3, 2 ** 31, 2 ** 63 - 1])
     o["vrnt_name"] = opt(rng, mode, lambda: g_str(rng, p))
     o["vrnt_genpos"] = opt(rng, mode, lambda: g_f64(rng, [p]))
     o["vrnt_xoprob"] = opt(rng, mode, lambda: g_f64(rng, [p]))
@@ -544,9 +693,9 @@ def g_hyper(rng, mode):
         else: d[k] = None
     return {"t": "dict", "v": d}
 
-def gen_obj(rng, key, mode=None):
+def gen_obj(rng, key, mode=None, dims=None):
     mode = mode or rng.choice(["all", "none", "mix", "mix", "mix"])
-    n, p, t = rng.randint(1, 4), rng.randint(1, 5), rng.randint(1, 3)
+    n, p, t = dims or (rng.randint(1, 4), rng.randint(1, 5), rng.randint(1, 3))
     o = {}
     if key == "DM":
         sh = rng.choice([[n], [n, p], [2, n, p]])
@@ -589,14 +738,19 @@ def gen_obj(rng, key, mode=None):
     return o
 
 GROUPS = [None, "g", "g/", "a/b", "a/b/", "/abs/x", "données/ü", "日本/x/", "a//b", "deep/er/and/deeper"]
-def gen_h5(rng, key=None, ntr=None):
+def gen_h5(rng, key=None, ntr=None, dims_in=None):
     key = key or rng.choice(H5_CLASSES)
     k = rng.random()
     nsteps = 1 if k < 0.3 else (2 if k < 0.7 else 3)
     modes = [None] * nsteps
     if nsteps >= 2 and rng.random() < 0.6:          # rich -> poor, the pattern named in the property
         modes = ["all"] + [rng.choice(["none", "mix"]) for _ in range(nsteps - 1)]
-    objs = [gen_obj(rng, key, m) for m in modes]
+    routes = ["new"] * nsteps
+    dims = None
+    if rng.random() < 0.45:
+        routes = [rng.choice(["new", "copy", "deepcopy"])] + [rng.choice(["new", "setattr", "setattr", "copy", "deepcopy"]) for _ in range(nsteps - 1)]
+        if "setattr" in routes: dims = dims_in or (rng.randint(1, 4), rng.randint(1, 5), rng.randint(1, 3))      # setters check lengths against the matrix
+    objs = [gen_obj(rng, key, m, dims or dims_in) for m in modes]
     if key == "GE":
         for o in objs: o["_ntrait"] = objs[0]["_ntrait"]; 
         for o in objs:
@@ -604,20 +758,27 @@ def gen_h5(rng, key=None, ntr=None):
                 if o.get(f) is not None and o[f]["sh"] != [o["_ntrait"]]: o[f] = g_f64(rng, [o["_ntrait"]], nonneg=True)
     ow = [True] + [rng.random() < 0.85 for _ in range(nsteps - 1)]
     if rng.random() < 0.1: ow[0] = False
-    return {"kind": "h5", "cls": key, "group": rng.choice(GROUPS), "handle": rng.random() < 0.4, "objs": objs, "overwrite": ow}
+    c = {"kind": "h5", "cls": key, "group": rng.choice(GROUPS), "handle": rng.random() < 0.4, "objs": objs, "overwrite": ow}
+    if routes != ["new"] * nsteps: c["routes"] = routes
+    return c
 
 def gen_cases(rng, tier):
     cases = []
     N = 30 if tier == "quick" else 250
     for key in H5_CLASSES:
         for _ in range(N): cases.append(gen_h5(rng, key))
+    # more taxa / variants than an int8 (or uint8) index can count, grouped and ungrouped
+    for _ in range(1 if tier == "quick" else 8):
+        for key, dims in (("TM", (rng.randint(130, 300), 2, 1)), ("GM", (rng.randint(130, 260), 3, 1)), ("VrM", (2, rng.randint(260, 400), 1))):
+            cases.append(gen_h5(rng, key, dims_in=dims))
     M = 20 if tier == "quick" else 150
     for key in CLS:
-        for _ in range(M): cases.append(gen_copy(rng, key))
+        for i in range(M): cases.append(gen_copy(rng, key, i))
     for i in range(64 if tier == "quick" else 600): cases.append(gen_vcf(rng, ties=(i % 8 == 7)))
-    for key in ["BV", "CM", "VM", "SGMAP", "EGMAP", "ALGM", "ADLGM"]:
-        for i in range(30 if tier == "quick" else 250): cases.append(gen_df(rng, key))
+    for key in ["BV", "CM", "VM", "SGMAP", "EGMAP", "ALGM", "ADLGM", "STT"]:
+        for i in range((30 if key != "STT" else 16) if tier == "quick" else 250): cases.append(gen_df(rng, key))
     for i in range(60 if tier == "quick" else 600): cases.append(gen_wd(rng))
+    for i in range(40 if tier == "quick" else 400): cases.append(gen_rd(rng))
     return cases
 
 # ------------------------------------------------------------------------------------------------ predicate
@@ -671,7 +832,7 @@ WRITTEN = {}
 
 def pred(case, out):
     if "exc" in out: return ["harness/implementation raised %s: %s" % (out["exc"], out.get("msg"))]
-    bad = {"h5": pred_h5, "copy": pred_copy, "vcf": pred_vcf, "df": pred_df, "wd": pred_wd}[case["kind"]](case, out)
+    bad = {"h5": pred_h5, "copy": pred_copy, "vcf": pred_vcf, "df": pred_df, "wd": pred_wd, "rd": pred_rd}[case["kind"]](case, out)
     seen = []
     for b in bad:
         if b not in seen: seen.append(b)
@@ -700,13 +861,17 @@ def classify(case, out, clauses):
         if "bv-location-scale" in tags and key != "BV": return None
         if "vmat-sorted" in tags:
             srt = lambda v: v is None or (v["d"] == sorted(v["d"]) and len(set(v["d"])) == len(v["d"]))
-            if key != "VM" or (srt(o.get("taxa")) and srt(o.get("trait"))): return None
+            if key not in ("VM", "STT") or (srt(o.get("taxa")) and srt(o.get("trait"))): return None
         if "gmap-cM-rounding" in tags:
             if key not in ("SGMAP", "EGMAP") or case["opts"].get("units") not in ("cM", "centiMorgans"): return None
             if all(0.01 * (100.0 * x) == x for x in _fl(o["vrnt_genpos"])): return None
+        if "gmap-default-units" in tags and not (key in ("SGMAP", "EGMAP") and case["opts"].get("defaults")): return None
+        if "egmap-names-lost" in tags and not (key == "EGMAP" and case["via"] == "egmap" and (o.get("vrnt_name") is not None or o.get("vrnt_fncode") is not None)): return None
+        if "egmap-spline-kind" in tags and not (key == "EGMAP" and o.get("_kind") and o.get("_kind_build") and o.get("_spline", True)): return None
         if "csv-float-parse" in tags:
-            if case["via"] != "csv" or not any(_long_float(x) for v in o.values() if isinstance(v, dict) and v.get("t") == "f64" for x in _fl(v)): return None
-        for t, fid in (("csv-float-parse", "C16-csv-float-parse"), ("bv-location-scale", "C16-bv-pandas-location-scale"), ("vmat-sorted", "C16-vmat-pandas-sorted"),
+            if case["via"] not in ("csv", "egmap", "egmap_file") or not any(_long_float(x) for v in o.values() if isinstance(v, dict) and v.get("t") == "f64" for x in _fl(v)): return None
+        for t, fid in (("gmap-default-units", "C16-gmap-default-units-mismatch"), ("egmap-names-lost", "C16-egmap-names-lost"),
+                       ("egmap-spline-kind", "C16-egmap-ctor-ignores-spline-kind"), ("csv-float-parse", "C16-csv-float-parse"), ("bv-location-scale", "C16-bv-pandas-location-scale"), ("vmat-sorted", "C16-vmat-pandas-sorted"),
                        ("gmap-cM-rounding", "C16-gmap-cM-rounding"), ("absent-labels", "C16-df-absent-labels")):
             if t in tags: return fid
     return None
@@ -722,6 +887,9 @@ def describe(case, out):
     if case["kind"] == "h5":
         d["writes"] = len(case["objs"]); d["group"] = "root" if case["group"] is None else ("non-ascii" if any(ord(c) > 127 for c in case["group"]) else "nested" if "/" in case["group"].strip("/") else "plain")
         d["all_overwrite"] = all(case["overwrite"])
+        d["routes"] = ",".join(sorted(set(out.get("routes", ["new"])))) if isinstance(out, dict) else "?"
+    if case["kind"] == "copy": d["how"] = case["how"]; d["src"] = case.get("src", "new")
+    if case["kind"] == "df": d["via"] = case["via"]; d["defaults"] = bool(case.get("opts", {}).get("defaults")); d["bypos"] = bool(case.get("opts", {}).get("bypos"))
     return d
 
 # ------------------------------------------------------------------------------------------------ copies
@@ -755,6 +923,8 @@ def _mutate_arr(x):
 def run_copy(case):
     key = case["cls"]
     o = build(key, case["obj"])
+    if case.get("src") == "copy": o = _copy.copy(o)                 # lifecycle: the source is itself a copy / a deep copy
+    elif case.get("src") == "deepcopy": o = _copy.deepcopy(o)
     before = observe_c(key, o)
     how = case["how"]
     if how == "copy": c = _copy.copy(o)
@@ -776,6 +946,9 @@ def run_copy(case):
                     else:
                         s = _shares(xv, yv)
                         if s is not None: out["shares"]["%s.%s" % (a, k)] = s
+                        if isinstance(xv, dict) and isinstance(yv, dict):          # one level further: members of a dictionary-valued member
+                            for kk in xv:
+                                if kk in yv and _shares(xv[kk], yv[kk]): out["shares"]["%s.%s.%s" % (a, k, kk)] = True
         if a == "gpmod":
             for b in ("beta", "u_a"): out["shares"]["gpmod." + b] = bool(numpy.shares_memory(getattr(x, b), getattr(y, b)))
     # mutate everything reachable from the copy
@@ -786,6 +959,14 @@ def run_copy(case):
             for k, v in list(y.items()):
                 if isinstance(v, numpy.ndarray): _mutate_arr(v)
                 elif hasattr(v, "y"): _mutate_arr(v.y)
+                elif isinstance(v, list):
+                    if v: v[0] = 12345.5
+                    v.append(-1.0)
+                elif isinstance(v, dict):
+                    for vv in v.values():
+                        if isinstance(vv, numpy.ndarray): _mutate_arr(vv)
+                        elif isinstance(vv, list): vv.append(-1.0)
+                    v["__new__"] = 1
             y["__new__"] = 1
         elif a == "gpmod":
             _mutate_arr(y.beta); _mutate_arr(y.u_a)
@@ -820,10 +1001,26 @@ def gen_map_obj(rng, key, spline=None):
         o["vrnt_fncode"] = g_str(rng, p) if rng.random() < 0.4 else None
     return o
 
-def gen_copy(rng, key=None):
+HOWS = ["copy", "deepcopy", "m_copy", "m_deepcopy"]
+def g_hyper_mutable(rng):
+    """a hyper-parameter dictionary with mutable members: always an ndarray, often a python list, sometimes a dictionary"""
+    d = {rng.choice(["a", "λ"]): g_f64(rng, [rng.randint(1, 3)], special=False)}
+    if rng.random() < 0.6: d["lst"] = {"t": "list", "d": [fhex(rng.randint(-8, 8) / 4) for _ in range(rng.randint(0, 3))]}
+    if rng.random() < 0.3: d["sub"] = {"t": "dict", "v": {"w": g_f64(rng, [2], special=False), "n": {"t": "int", "v": rng.randint(0, 9)}}}
+    if rng.random() < 0.5: d["lr"] = {"t": "float", "v": fhex(rng.choice(FLOATS[:8]))}
+    return {"t": "dict", "v": d}
+
+def gen_copy(rng, key=None, i=None):
     key = key or rng.choice(list(CLS))
     o = gen_map_obj(rng, key) if key in ("SGMAP", "EGMAP") else gen_obj(rng, key)
-    return {"kind": "copy", "cls": key, "obj": o, "how": rng.choice(["copy", "deepcopy", "m_copy", "m_deepcopy"])}
+    if key in ("ALGM", "ADLGM") and rng.random() < 0.8: o["hyperparams"] = g_hyper_mutable(rng)
+    if key in ("SGMAP", "EGMAP") and rng.random() < 0.5:
+        o["_kind"] = rng.choice(["nearest", "previous", "next"]); o["_kind_build"] = rng.random() < 0.7
+    c = {"kind": "copy", "cls": key, "obj": o, "how": rng.choice(HOWS) if i is None else HOWS[i % 4]}       # every form for every class
+    r = rng.random()
+    if r < 0.15: c["src"] = "copy"
+    elif r < 0.3: c["src"] = "deepcopy"
+    return c
 
 SHARED_ON_PURPOSE = {"GE": {"rng"}}
 def pred_copy(case, out):
@@ -953,10 +1150,17 @@ def df_options(key, o, case):
         kw = dict(female_col="female", female_grp_col="female_grp" if gc else None, male_col="male", male_grp_col="male_grp" if gc else None,
                   trait_col="trait", variance_col="variance")
         return kw, dict(kw)
+    if key == "STT":
+        gc = o.taxa_grp is not None
+        kw = dict(taxa_colnames=True, taxa_grp_colnames=gc, trait_colnames=True, value_colname="value")
+        return kw, dict(kw, ntaxaaxes=2)
     if key in ("SGMAP", "EGMAP"):
+        if opts.get("defaults"): return {}, {}                       # default arguments on both sides
         u = opts.get("units", "cM")
         ag = bool(case["obj"].get("_auto_group", True)); sp = bool(case["obj"].get("_spline", True))
-        to = dict(vrnt_genpos_units=u); fr = dict(vrnt_genpos_units=u, auto_group=ag, auto_build_spline=sp)
+        to = dict(vrnt_genpos_units=u)
+        # matching options: units, grouping, and the interpolation settings of the source
+        fr = dict(vrnt_genpos_units=u, auto_group=ag, auto_build_spline=sp, spline_kind=o.spline_kind, spline_fill_value=o.spline_fill_value)
         if key == "EGMAP":
             fr["vrnt_name_col"] = "name" if o.vrnt_name is not None else None
             fr["vrnt_fncode_col"] = "fncode" if o.vrnt_fncode is not None else None
@@ -965,18 +1169,49 @@ def df_options(key, o, case):
         return dict(trait_cols="trait"), dict(trait_cols="infer", model_name=o.model_name, hyperparams=o.hyperparams)
     raise ValueError(key)
 
+def egmap_text(o):
+    """an egmap file written by hand: chr, pos, stop, Morgans and the optional columns under the names from_egmap documents"""
+    cols = ["chr_grp", "chr_start", "chr_stop", "map_pos"] + (["mkr_name"] if o.get("vrnt_name") else []) + (["map_fncode"] if o.get("vrnt_name") and o.get("vrnt_fncode") else [])
+    rows = ["\t".join(cols)]
+    for i in range(len(o["vrnt_chrgrp"]["d"])):
+        r = [str(o["vrnt_chrgrp"]["d"][i]), str(o["vrnt_phypos"]["d"][i]), str(o["vrnt_stop"]["d"][i]), repr(float.fromhex(o["vrnt_genpos"]["d"][i]))]
+        if "mkr_name" in cols: r.append(o["vrnt_name"]["d"][i])
+        if "map_fncode" in cols: r.append(o["vrnt_fncode"]["d"][i])
+        rows.append("\t".join(r))
+    return "\n".join(rows) + "\n"
+
 def run_df(case):
+    import contextlib
+    with contextlib.redirect_stdout(io.StringIO()):          # DenseSquareTaxaTraitMatrix.to_pandas / from_pandas print debugging output
+        return _run_df(case)
+
+def _run_df(case):
     import pandas
     key = case["cls"]; cls = klass(key)
     o = build(key, case["obj"])
     out = {"orig": observe_c(key, o) if key in ("SGMAP", "EGMAP") else observe(key, o)}
     to, fr = df_options(key, o, case)
+    if case.get("opts", {}).get("bypos") and key not in ("ALGM", "ADLGM") and fr:
+        # the readers accept every column argument by NAME or by POSITION: hand over the positions the writer's frame has
+        cols = [str(c) for c in o.to_pandas(**to).columns]
+        pref = {"taxa_colnames": lambda c: c.startswith("taxa_") and not c.startswith("taxa_grp_"), "taxa_grp_colnames": lambda c: c.startswith("taxa_grp_"),
+                "trait_colnames": lambda c: c.startswith("trait_")}
+        for k, v in list(fr.items()):
+            if (k.endswith("_col") or k == "value_colname") and isinstance(v, str) and v in cols: fr[k] = cols.index(v)
+            elif k in pref and v is True and k != "trait_colnames": fr[k] = [i for i, c in enumerate(cols) if pref[k](c)]      # trait_colnames: see UNCOVERED_ARGS
     out["opts"] = {"to": {k: (v if not isinstance(v, numpy.ndarray) else "<array>") for k, v in to.items()},
                    "from": {k: (v if not isinstance(v, (numpy.ndarray, dict)) else "<obj>") for k, v in fr.items()}}
     multi = key in ("ALGM", "ADLGM")
     files = []
     try:
-        if case["via"] == "pandas":
+        if case["via"] in ("egmap", "egmap_file"):
+            fn = _tmp(case, ".egmap"); files = [fn]
+            if case["via"] == "egmap": o.to_egmap(fn)
+            else:
+                with open(fn, "w", encoding="utf-8") as f: f.write(egmap_text(case["obj"]))      # a file as the format description has it
+            out["df_read"] = table(pandas.read_csv(fn, sep="\t")); out["df"] = out["df_read"]
+            back = cls.from_egmap(fn, **{k: v for k, v in fr.items() if k in ("auto_group", "auto_build_spline", "spline_kind", "spline_fill_value")})
+        elif case["via"] == "pandas":
             if multi:
                 dd = o.to_pandas_dict(**to); out["df"] = {k: table(v) for k, v in dd.items()}
                 back = cls.from_pandas_dict(dd, **fr)
@@ -1018,7 +1253,7 @@ def g_labels(rng, n, csv, distinct=True, sort=None):
     return {"t": "str", "d": out}
 
 def gen_df(rng, key=None, via=None):
-    key = key or rng.choice(["BV", "CM", "VM", "SGMAP", "EGMAP", "ALGM", "ADLGM"])
+    key = key or rng.choice(["BV", "CM", "VM", "STT", "SGMAP", "EGMAP", "ALGM", "ADLGM"])
     via = via or rng.choice(["pandas", "pandas", "csv"])
     csv = via == "csv"
     n, t = rng.randint(1, 4), rng.randint(1, 3)
@@ -1032,10 +1267,20 @@ def gen_df(rng, key=None, via=None):
             for f in ("vrnt_name", "vrnt_fncode"):
                 if o[f] is not None: o[f] = {"t": "str", "d": [rng.choice(CSV_LABELS) for _ in range(p)]}
         opts["units"] = rng.choice(["cM", "cM", "M", "centiMorgans", "Morgans"])
-        if csv or rng.random() < 0.5:
+        r = rng.random()
+        if r < 0.15:                                    # default arguments on both sides (the defaults group and build the spline)
+            opts = {"defaults": True}; o["_auto_group"] = True; o["_spline"] = True
+        elif key == "EGMAP" and r < 0.45:               # the egmap file pair, and files written as the format is documented
+            via = rng.choice(["egmap", "egmap", "egmap_file"]); opts = {"units": "M"}
+            if via == "egmap_file" and o["vrnt_name"] is None: o["vrnt_fncode"] = None
+        if rng.random() < 0.4 and not opts.get("defaults"):
+            o["_kind"] = rng.choice(["nearest", "previous", "next"]); o["_kind_build"] = rng.random() < 0.7
+        if csv or via != "pandas" or rng.random() < 0.5:
             o["vrnt_genpos"]["d"] = [fhex(round(float.fromhex(x) * 256) / 256 + 1 / 256) for x in o["vrnt_genpos"]["d"]]
+        if via in ("pandas", "csv") and not opts.get("defaults") and rng.random() < 0.4: opts["bypos"] = True
         return {"kind": "df", "cls": key, "via": via, "obj": o, "opts": opts}
     mode = rng.choice(["all", "all", "mix", "none"])
+    if key in ("BV", "CM", "VM", "STT") and rng.random() < 0.4: opts["bypos"] = True
     o = {}
     if key == "BV":
         std = rng.random() < 0.5
@@ -1053,7 +1298,7 @@ def gen_df(rng, key=None, via=None):
     elif key == "CM":
         o["mat"] = fl([n, n]); o["taxa"] = opt(rng, mode, lambda: g_labels(rng, n, csv)); o["taxa_grp"] = opt(rng, mode, lambda: g_int(rng, [n], 0, 3))
         opts["grp_col_anyway"] = rng.random() < 0.3
-    elif key == "VM":
+    elif key in ("VM", "STT"):
         srt = rng.random() < 0.6
         o["mat"] = fl([n, n, t]); o["taxa"] = opt(rng, mode, lambda: g_labels(rng, n, csv, sort=srt)); o["taxa_grp"] = opt(rng, mode, lambda: g_int(rng, [n], 0, 3))
         o["trait"] = opt(rng, mode, lambda: g_labels(rng, t, csv, sort=srt))
@@ -1075,7 +1320,7 @@ def _ulps(a, b, k=4):
 def _long_float(x):
     """needs more than 15 significant digits to print"""
     return x == x and abs(x) != float("inf") and float("%.15g" % x) != x
-LABEL_FIELDS = {"BV": ["taxa", "trait"], "CM": ["taxa"], "VM": ["taxa", "trait"], "ALGM": ["trait"], "ADLGM": ["trait"], "SGMAP": [], "EGMAP": []}
+LABEL_FIELDS = {"BV": ["taxa", "trait"], "CM": ["taxa"], "VM": ["taxa", "trait"], "STT": ["taxa", "trait"], "ALGM": ["trait"], "ADLGM": ["trait"], "SGMAP": [], "EGMAP": []}
 
 def pred_df(case, out):
     key = case["cls"]; o = out["orig"]; b = out["back"]
@@ -1084,8 +1329,8 @@ def pred_df(case, out):
     diff = oeq(o, b)
     absent = [f for f in LABEL_FIELDS[key] if o[f] is None]
     # (1) labels that were present come back exactly; absent ones may only come back as None
-    for f in LABEL_FIELDS[key] + (["taxa_grp"] if "taxa_grp" in o and key != "VM" else []):
-        if f in diff and f not in absent and not (key == "VM"):
+    for f in LABEL_FIELDS[key] + (["taxa_grp"] if "taxa_grp" in o and key not in ("VM", "STT") else []):
+        if f in diff and f not in absent and not (key in ("VM", "STT")):
             bad.append("label array %s not reproduced" % f)
     synth = [f for f in absent if f in diff]
     if synth: bad.append("[absent-labels] absent %s read back as synthesised labels" % ",".join(synth))
@@ -1098,12 +1343,13 @@ def pred_df(case, out):
         if any(f in rest for f in ("mat", "location", "scale")):
             bad.append("[bv-location-scale] location/scale/mat not reproduced: from_pandas ignores location and scale and re-standardises (%s)" % ",".join(f for f in rest if f in ("mat", "location", "scale")))
         rest = [f for f in rest if f not in ("mat", "location", "scale")]
-    elif key == "VM":
+    elif key in ("VM", "STT"):
         def entries(v, taxa, trait):
             n = v["mat"]["sh"][0]; t = v["mat"]["sh"][2]; d = v["mat"]["d"]
             return {(taxa[i], taxa[j], trait[k]): d[(i * n + j) * t + k] for i in range(n) for j in range(n) for k in range(t)}
         n = o["mat"]["sh"][0]; t = o["mat"]["sh"][2]
         zt = math.ceil(math.log10(n)) + 1; zr = math.ceil(math.log10(t)) + 1
+        if key == "STT": zt, zr = len(str(n)), len(str(t))          # DenseSquareTaxaTraitMatrix synthesises "Taxon" + str(i).zfill(len(str(n)))
         ot = o["taxa"]["d"] if o["taxa"] is not None else ["Taxon" + str(i).zfill(zt) for i in range(n)]
         otr = o["trait"]["d"] if o["trait"] is not None else ["Trait" + str(i).zfill(zr) for i in range(t)]
         if b["taxa"] is None or b["trait"] is None or b["mat"]["sh"] != [n, n, t]:
@@ -1125,6 +1371,26 @@ def pred_df(case, out):
                 rest = [f for f in rest if f not in exact_pos_bits]
         rest = [f for f in rest if f in ("mat",) or f not in ("taxa", "taxa_grp", "trait")]
     elif key in ("SGMAP", "EGMAP"):
+        if case["opts"].get("defaults"):
+            # default arguments on both sides: the writer's default unit is the centiMorgan, the reader's the Morgan, and the extended
+            # reader takes no name / function-code column by default
+            pos = [f for f in rest if f in ("vrnt_genpos", "spline")]
+            x100 = b["vrnt_genpos"] is not None and _ulps(_fl(b["vrnt_genpos"]), [100.0 * x for x in _fl(o["vrnt_genpos"])], 2)
+            lost = [f for f in rest if f in ("vrnt_name", "vrnt_fncode") and o[f] is not None and b[f] is None]
+            if pos and x100:
+                bad.append("[gmap-default-units] to_pandas()/from_pandas() with default arguments: genetic positions read back multiplied by 100 (written in cM, read as M)")
+                rest = [f for f in rest if f not in pos]
+            if lost:
+                bad.append("[gmap-default-units] default arguments: %s not read back (from_pandas takes no such column by default)" % ",".join(lost))
+                rest = [f for f in rest if f not in lost]
+        if case["via"] == "egmap":
+            lost = [f for f in rest if f in ("vrnt_name", "vrnt_fncode") and o[f] is not None and b[f] is None]
+            if lost:
+                bad.append("[egmap-names-lost] to_egmap/from_egmap: %s lost (written under a column name from_egmap does not look for)" % ",".join(lost))
+                rest = [f for f in rest if f not in lost]
+        if key == "EGMAP" and "spline_kind" in rest and o["spline_kind"] != b["spline_kind"] and _scalar(b["spline_kind"]) == ("s", "linear"):
+            bad.append("[egmap-spline-kind] spline_kind %r given to the reader comes back as 'linear' (the constructor rebuilds the spline with build_spline's defaults)" % o["spline_kind"]["v"])
+            rest = [f for f in rest if f != "spline_kind"]
         gp = [f for f in rest if f in ("vrnt_genpos", "spline")]
         if gp:
             ok = b["vrnt_genpos"] is not None and _ulps(_fl(b["vrnt_genpos"]), _fl(o["vrnt_genpos"]))
@@ -1133,7 +1399,7 @@ def pred_df(case, out):
             if not ok: bad.append("genetic positions differ by more than rounding")
             else: bad.append("[gmap-cM-rounding] genetic positions not bit-identical after the cM <-> M conversion 0.01*(100*x)")
         rest = [f for f in rest if f not in ("vrnt_genpos", "spline")]
-    if case["via"] == "csv":
+    if case["via"] in ("csv", "egmap", "egmap_file"):
         fl = [f for f in rest if o[f] is not None and b[f] is not None and o[f]["t"] == "f64" and b[f]["t"] == "f64"
               and o[f]["sh"] == b[f]["sh"] and _ulps(_fl(o[f]), _fl(b[f]), 64)]
         if fl: bad.append("[csv-float-parse] %s differ in the last bits after to_csv/from_csv (pandas' default float parser is not round-trip exact)" % ",".join(fl))
@@ -1241,6 +1507,135 @@ def pred_wd(case, out):
         if extra:
             nested = all("/" in k for k in extra)
             bad.append(("[wd-stale-nested] " if nested else "") + "step %d: stale datasets below keys of the dictionary: %s" % (i, ",".join(extra)))
+    return bad
+
+# ------------------------------------------------------------------------------------------------ the typed readers, called directly
+# (the persistable classes only reach part of them: no class stores a matrix that h5py_File_read_ndarray_int8 has to convert, none uses
+#  h5py_File_read_ndarray_int).  The file is written with h5py itself, independently of pybrops' writer.
+RD_FUNCS = {"RNd": "h5py_File_read_ndarray", "RNdUtf8": "h5py_File_read_ndarray_utf8", "RInt": "h5py_File_read_int", "RNdInt8": "h5py_File_read_ndarray_int8",
+            "RNdInt": "h5py_File_read_ndarray_int", "RUtf8": "h5py_File_read_utf8"}
+def _rd_domain(r, v):
+    """is reader r defined on a dataset written from value v? (the domain on which the model is claimed; elsewhere only the predicate looks)"""
+    t = v["t"]
+    if r == "RNd": return True
+    if r == "RNdUtf8": return t == "str"
+    if r == "RInt": return t in ("i8", "i32", "i64", "b") and v["sh"] == []
+    if r in ("RNdInt8", "RNdInt"): return t in ("i8", "i32", "i64", "b")
+    if r == "RUtf8": return t in ("s", "by")
+    return False
+
+def gen_rd(rng):
+    ds = {}
+    for i in range(rng.randint(2, 5)):
+        r = rng.random(); nm = rng.choice(["a", "m", "ü", "x1", "lab", "p/q"]) + str(i)
+        if r < 0.45:
+            t = rng.choice(["i8", "i32", "i64", "i64", "b"]); sh = rng.choice([[], [rng.randint(1, 3)], [2, rng.randint(1, 2)]])
+            lo, hi = {"i8": (-128, 127), "i32": (-70000, 70000), "i64": (-10 ** 12, 10 ** 12), "b": (0, 1)}[t]
+            v = g_int(rng, sh, lo, hi, t)
+            if t != "b" and rng.random() < 0.5: v["d"] = [rng.choice([0, 1, -1, 127, 128, 200, 255, 256, -129, -130, 1000, lo, hi]) for _ in v["d"]]; v["d"] = [min(max(x, lo), hi) for x in v["d"]]
+        elif r < 0.6: v = g_f64(rng, rng.choice([[], [2], [2, 2]]), special=False)
+        elif r < 0.8: v = g_str(rng, rng.randint(1, 3))
+        elif r < 0.92: v = {"t": "s", "v": rng.choice(["x", "é/ü", "", "日本", "rrBLUP"])}
+        else: v = {"t": "by", "v": rng.choice([[114, 97, 119], [255, 1], [195, 164], []])}
+        ds[nm] = v
+    members = {}
+    for k in rng.sample(["x", "y", "ζ", "kind", "n"], rng.randint(0, 4)):
+        members[k] = rng.choice([lambda: g_f64(rng, [rng.randint(1, 2)], special=False), lambda: {"t": "int", "v": rng.randint(-5, 99)}, lambda: {"t": "float", "v": fhex(rng.choice(FLOATS[:9]))},
+                                 lambda: {"t": "s", "v": rng.choice(["x", "é", "ridge", ""])}, lambda: {"t": "by", "v": rng.choice([[114, 97, 119], [255, 1]])},
+                                 lambda: g_str(rng, 2), lambda: g_int(rng, [], 0, 9, rng.choice(["i8", "i64"]))])()
+    return {"kind": "rd", "datasets": ds, "members": members, "group": rng.choice(["hp", "g/hp", "ü"])}
+
+def run_rd(case):
+    import h5py
+    import pybrops.core.util.h5py as U
+    fn = _tmp(case, ".h5")
+    if os.path.exists(fn): os.remove(fn)
+    out = {"reads": {}, "has": {}}
+    try:
+        with h5py.File(fn, "w") as h5:
+            for nm, v in case["datasets"].items(): h5.create_dataset(nm, data=mk(v))
+            g = h5.require_group(case["group"])
+            for k, v in case["members"].items(): g.create_dataset(k, data=mk(v))
+        out["dump"] = h5dump(fn)
+        with h5py.File(fn, "r") as h5:
+            for nm in case["datasets"]:
+                for r, f in RD_FUNCS.items():
+                    try: out["reads"]["%s|%s" % (nm, r)] = ob(getattr(U, f)(h5, nm))
+                    except Exception as e: out["reads"]["%s|%s" % (nm, r)] = _exc(e)
+            try: out["dict"] = ob(U.h5py_File_read_dict(h5, case["group"]))
+            except Exception as e: out["dict"] = _exc(e)
+            for nm in list(case["datasets"]) + [case["group"], "absent", case["group"] + "/absent"]:
+                out["has"][nm] = bool(U.h5py_File_has_group(h5, nm))
+            out["readable"] = bool(U.h5py_File_is_readable(h5)); out["writable"] = bool(U.h5py_File_is_writable(h5))
+        with h5py.File(fn, "a") as h5: out["writable_a"] = bool(U.h5py_File_is_writable(h5))
+    finally:
+        if os.path.exists(fn): os.remove(fn)
+    return out
+_RUN["rd"] = run_rd
+
+def _enc_json(v):
+    """JSON value -> the dump form of the dataset h5py makes of it (as h5dump reports it)"""
+    t = v["t"]
+    if t in NUMT: return {k: x for k, x in ob(mk(v)).items() if k != "sc"}
+    if t == "str": return {"t": "bytes", "d": [list(x.encode("utf-8")) for x in v["d"]]}
+    if t == "s": return {"t": "by", "v": list(v["v"].encode("utf-8"))}
+    if t == "by": return {"t": "bya", "v": list(v["v"])}
+    if t == "int": return {"t": "i64", "sh": [], "d": [v["v"]]}
+    if t == "float": return {"t": "f64", "sh": [], "d": [fhex(float.fromhex(v["v"]))]}
+    raise ValueError(t)
+
+def emit_rd(case, out):
+    parts = []
+    for nm, v in case["datasets"].items():
+        d = e_dset(_enc_json(v))
+        for r in RD_FUNCS:
+            if not _rd_domain(r, v): continue
+            o = out["reads"]["%s|%s" % (nm, r)]
+            try: res = "None" if "exc" in o else "(Some %s)" % e_sval(o)
+            except ValueError: return "false"
+            parts.append("agree_rd %s %s %s" % (r, d, res))
+    o = out["dict"]
+    if "exc" in o: res = "None"
+    else:
+        try: res = "(Some %s)" % E.lst(sorted(o["v"].items()), lambda kv: "(%s, %s)" % (zstr(kv[0]), E.opt(kv[1], e_sval)))
+        except ValueError: return "false"
+    parts.append("agree_rdict %s %s %s" % (e_dump(out["dump"]), zstr(case["group"]), res))
+    return "forallb (fun b : bool => b) %s" % E.lst(parts, str)
+_EMIT["rd"] = emit_rd
+
+def _wrap8(x): return (x + 128) % 256 - 128
+def pred_rd(case, out):
+    """every reader returns the stored value in the type its name promises"""
+    bad = []
+    for nm, v in case["datasets"].items():
+        t = v["t"]; get = lambda r: out["reads"]["%s|%s" % (nm, r)]
+        def want(r, exp):
+            o = get(r)
+            if "exc" in o: bad.append("%s(%s) raised %s: %s" % (RD_FUNCS[r], nm, o["exc"], o["msg"][:80]))
+            elif not ({k: x for k, x in o.items() if k != "sc"} == exp): bad.append("%s(%s) returned %s, stored %s" % (RD_FUNCS[r], nm, json.dumps(o)[:90], json.dumps(v)[:90]))
+        want("RNd", {"str": lambda: _enc_json(v), "s": lambda: {"t": "by", "v": list(v["v"].encode("utf-8"))}, "by": lambda: {"t": "by", "v": list(v["v"])}}.get(t, lambda: _enc_json(v))())
+        if t == "str": want("RNdUtf8", {"t": "str", "d": v["d"]})
+        if t in ("i8", "i32", "i64", "b"):
+            want("RNdInt", {"t": "i64", "sh": v["sh"], "d": [int(x) for x in v["d"]]})
+            want("RNdInt8", {"t": "i8", "sh": v["sh"], "d": [_wrap8(int(x)) for x in v["d"]]})
+            if v["sh"] == []: want("RInt", {"t": "int", "v": int(v["d"][0])})
+        if t == "s": want("RUtf8", {"t": "s", "v": v["v"]})
+        if t == "by":
+            try: exp = {"t": "s", "v": bytes(v["v"]).decode("utf-8")}
+            except UnicodeDecodeError: exp = None
+            if exp is not None: want("RUtf8", exp)
+            elif "exc" not in get("RUtf8"): bad.append("h5py_File_read_utf8(%s) decoded invalid UTF-8" % nm)
+    o = out["dict"]
+    if "exc" in o: bad.append("h5py_File_read_dict raised %s: %s" % (o["exc"], o["msg"][:80]))
+    else:
+        wantd = {}
+        for k, v in case["members"].items():
+            wantd[k] = v if v["t"] in ("s", "by") else ({"t": "bytes", "d": [list(x.encode("utf-8")) for x in v["d"]]} if v["t"] == "str" else _enc_json(v))
+        got = {k: ({kk: x for kk, x in vv.items() if kk != "sc"} if isinstance(vv, dict) else vv) for k, vv in o["v"].items()}
+        if got != wantd: bad.append("h5py_File_read_dict returned %s, stored %s" % (json.dumps(got)[:120], json.dumps(wantd)[:120]))
+    for nm, h in out["has"].items():
+        if h != (not nm.endswith("absent")): bad.append("h5py_File_has_group(%s) = %s" % (nm, h))
+    if not (out["readable"] and not out["writable"] and out["writable_a"]): bad.append("h5py_File_is_readable/is_writable wrong for modes r / a")
     return bad
 
 # ------------------------------------------------------------------------------------------------ shrinking
